@@ -154,7 +154,7 @@ def history(ncaps, k, ntools):
 
 HARNESSES = {
     "history": {"make": history, "witness_every": 37,
-                "jobs": lambda tier: ([{"ncaps": 2, "k": 2, "ntools": 2}] if tier == "quick" else
+                "jobs": lambda tier: ([{"ncaps": 1, "k": 3, "ntools": 1}, {"ncaps": 2, "k": 1, "ntools": 2}] if tier == "quick" else
                                       [{"ncaps": 3, "k": 2, "ntools": 2}, {"ncaps": 2, "k": 3, "ntools": 2}, {"ncaps": 6, "k": 1, "ntools": 1}]),
                 "clauses": ["C03.a", "C03.b", "C03.c"]},
 }
@@ -166,7 +166,7 @@ META = {
         "technique": "exhaustive symbolic-choice enumeration through mitochondria.py/nucleus.py entry points with side-effect counters (solver share: none, sets are concrete per path)",
     },
     "files": ["operon_ai/organelles/mitochondria.py", "operon_ai/organelles/nucleus.py"],
-    "bounds": {"quick": "2 capabilities (4x4 subsets) + unrestricted, 2 tool names, 1 registration + k=2 further actions, tool loop max_iterations=2 with <=2 calls per round",
+    "bounds": {"quick": "1 capability (allowed in {none-restriction, {}, {c}}; required in {{}, {c}}), one tool name, 1 registration + k=3 further actions (call / re-register under the same name / call ...); 2 capabilities, 2 tool names, k=1; tool loop max_iterations=2 with <=2 calls per round",
                "thorough": "3 capabilities k=2; 2 capabilities k=3; all 6 capabilities with one tool and k=1"},
     "outside": ["tools whose declared capability attribute is a non-iterable", "real LLM providers", "argument passing to tools"],
     "float_argument": "none",
